@@ -190,17 +190,17 @@ def parse(
 
             elif structure_cls == structure.LambdaMap:
                 structures.append(
-                    structure.LambdaMap(parse(branches[0], structure_cls))
+                    structure.LambdaMap(parse(branches[0], structure.Lambda))
                 )
 
             elif structure_cls == structure.LambdaFilter:
                 structures.append(
-                    structure.LambdaFilter(parse(branches[0], structure_cls))
+                    structure.LambdaFilter(parse(branches[0], structure.Lambda))
                 )
 
             elif structure_cls == structure.LambdaSort:
                 structures.append(
-                    structure.LambdaSort(parse(branches[0], structure_cls))
+                    structure.LambdaSort(parse(branches[0], structure.Lambda))
                 )
 
             elif structure_cls == structure.ListLiteral:
